@@ -7,10 +7,12 @@ THEOREMS = ["Pomerol.Properties.C07." + t for t in (
     "every_state_in_exactly_one_block", "address_round_trip", "block_sizes_add_up", "same_block_iff_same_quantum_numbers",
     "accepted_integral_is_diagonal", "no_hamiltonian_element_between_blocks", "creation_single_target",
     "annihilation_single_target", "quadratic_single_target", "analysis_completes_for_every_lattice",
-    "nonadditive_integral_was_accepted")]
+    "nonadditive_integral_was_accepted", "source_tests_additivity", "source_identifies_close_quantum_numbers",
+    "identification_is_identity_in_exact_arithmetic", "replaced_value_is_a_close_raw_value", "equal_values_stay_together",
+    "identified_iff_close")]
 RULE = ("a case = random lattice incl. spinless sites and sites with different numbers of spins/orbitals, Hamiltonians with "
-        "and without N / S_z conservation, default / ignored / custom candidate integrals (linear, non-linear diagonal, "
-        "non-diagonal): accepted set, block of every state, (block, position) addresses and block matrices are compared "
+        "and without N / S_z conservation (pairing, charge-transfer terms), default / ignored / custom candidate integrals "
+        "(linear with dyadic and non-dyadic weights, constant offsets, linear + non-linear, non-linear diagonal, non-diagonal): accepted set, block of every state, (block, position) addresses and block matrices are compared "
         "exactly with the model; block maps of every c+_i, c_i and sampled c+_i c_j against brute-force images on the full "
         "Fock space (single target), inter-block matrix elements of H through the certified eigen-system; "
         "non-trivial = distinct case with at least two blocks")
@@ -30,6 +32,7 @@ DESIGN_REF = "DESIGN.md section 6, C07"
 
 
 def correspondence(ctx):
+    pipeline.run_corpus(ctx, "C07", ["C07"])
     r = ctx.rng
     thorough = ctx.tier == "thorough"
     scripts, metas = [], []
@@ -111,6 +114,41 @@ def correspondence(ctx):
         s += ["dm %s" % pipeline.hx(1.0), "fops"] + ["fop1 quad %d %d" % (r.below(M), r.below(M)) for _ in range(3)]
         scripts.append(s)
         metas.append(("custom_pairing", m))
+    # integrals with NON-dyadic weights (0.1, 0.2, 0.3, ...): the quantum numbers of two states connected by the Hamiltonian
+    # are then sums that agree only up to rounding (0.1+0.2 vs 0.3); charge-transfer terms c+_c c+_d c_b c_a with
+    # w_a + w_b = w_c + w_d (exactly, in decimal arithmetic) conserve Q = sum_i w_i n_i without conserving the individual n_i
+    from decimal import Decimal
+    for _ in range(120 if thorough else 14):
+        m = pipeline.gen_sites(r, r.choice([4, 4, 5, 6 if thorough else 5]), spin_half=r.choice([None, False, False]), nsites=r.choice([2, 3, 4, 4]))
+        M = m.modes()
+        if M < 4:
+            continue
+        pipeline.add_random_terms(r, m, False, allow=("level", "coulombS", "level"))
+        idx = m.index_list()
+        den = r.choice([10, 10, 100, 3, 7])
+        ws = [Decimal(r.range(0, 12)) / den if den in (10, 100) else None for _ in range(M)]
+        if den not in (10, 100):
+            ks = [r.range(0, 9) for _ in range(M)]
+        for _ in range(r.range(1, 3)):
+            mm = list(range(M))
+            r.shuffle(mm)
+            a, b, c, d = mm[:4]
+            if den in (10, 100):
+                ws[d] = ws[a] + ws[b] - ws[c]
+            else:
+                ks[d] = ks[a] + ks[b] - ks[c]
+            pipeline.add_user_term(m, pipeline.rand_amp(r, False), [(1,) + idx[c], (1,) + idx[d], (0,) + idx[b], (0,) + idx[a]])
+        wf = [float(w) for w in ws] if den in (10, 100) else [k / float(den) for k in ks]
+        terms = ["%s 2 0 %d 1 %d" % (pipeline.val(w), i, i) for i, w in enumerate(wf) if w != 0.0]
+        if not terms:
+            continue
+        polys = ["%d %s" % (len(terms), " ".join(terms))]
+        if r.chance(1, 3):
+            polys.append("%d %s" % (M, " ".join("%s 2 0 %d 1 %d" % (pipeline.val(1.0), i, i) for i in range(M))))
+        s = pipeline.core_script(m, order=0, symm="symm custom %d %s" % (len(polys), " ".join(polys)), early=r.chance(1, 3))
+        s += ["dm %s" % pipeline.hx(1.0), "fops"] + ["fop1 quad %d %d" % (r.below(M), r.below(M)) for _ in range(2)]
+        scripts.append(s)
+        metas.append(("custom_nondyadic", m))
     res = pipeline.run_batch(scripts, "real")
     pipeline.collect(ctx, res, ["C07"])
     for (symm, m), s, rs in zip(metas, scripts, res):
